@@ -212,7 +212,7 @@ def run_case(desc):
             key = "reach|%r" % (a.tolist(),)
             obs = {"a": a.tolist()}
         elif mode == "batch":
-            a, fam = _array(rng, allow_inf=False)
+            a, fam = _array(rng, allow_inf=bool((desc["seed"] >> 13) % 2))      # infinite utilities are ordered like any other
             if (desc["seed"] >> 7) % 16 == 0:
                 a[...] = np.nan          # nothing selectable: zero positions, zero utility rows
             bs = int(rng.randint(1, a.size + 3))
@@ -248,10 +248,14 @@ def run_case(desc):
             obs = {"a": a.tolist(), "batch_size": bs, "idx": np.asarray(r1[0] if ru else r1).tolist()}
         else:  # proportional
             n = int(rng.randint(1, 10))
-            a = rng.choice([0.0, 0.0, 1.0, 2.0, 0.5], size=n)
-            a[rng.rand(n) < 0.3] = np.nan
-            if np.isnan(a).all():
-                a[0] = 1.0
+            shape = (n,) if (desc["seed"] >> 8) % 3 else (int(rng.randint(1, 4)), int(rng.randint(1, 4)))     # 2-D weights as well
+            n = int(np.prod(shape))
+            a = rng.choice([0.0, 0.0, 1.0, 2.0, 0.5], size=shape)
+            if (desc["seed"] >> 10) % 5 == 0:
+                a = a * 8e307            # finite weights whose sum overflows
+            a[rng.rand(*shape) < 0.3] = np.nan
+            if np.isnan(a).all() and (desc["seed"] >> 12) % 2:
+                a.flat[0] = 1.0          # (otherwise nothing is selectable: an empty batch, as with method='max')
             bs = int(rng.randint(1, n + 2))
             npos = int((a > 0).sum())
             try:
